@@ -419,7 +419,8 @@ def parse_file(path, crate=""):
         except Exception:
             pass
     funcs = parse_text(raw.decode(), crate)
-    with open(cache + ".tmp", "wb") as f:
+    tmp = cache + f".tmp{os.getpid()}"
+    with open(tmp, "wb") as f:
         pickle.dump({"v": PARSER_VERSION, "h": h, "funcs": funcs}, f)
-    os.replace(cache + ".tmp", cache)
+    os.replace(tmp, cache)
     return funcs
